@@ -24,8 +24,8 @@ class C02(Prop):
     title = "Safe evaluator computes the same value Python would on the allowed subset"
     extractors = ["E1"]
     fixed_prefix = 2
-    quick_budget = 300
-    thorough_budget = 6000
+    quick_budget = 1200
+    thorough_budget = 30000
     quick_deadline_s = 100
     thorough_deadline_s = 800
     all_branches = ["o:ok", "o:fail-ros", "py:ok", "py:fail", "d:keyword", "d:compare", "d:math", "forced"]
